@@ -1,6 +1,6 @@
-(* extraction of the C07 executable model (DictIO.v, C07Ident.v, C07Power.v, C07Collide.v); ExtrOcamlBasic only *)
+(* extraction of the C07 executable model (DictIO.v, C07Ident.v, C07Power.v, C07Collide.v, C07Class.v, C07Lang.v); ExtrOcamlBasic only *)
 Require Extraction.
 Require Import ExtrOcamlBasic.
-Require Import Base DictIO C07Ident C07Power C07Collide.
+Require Import Base DictIO C07Ident C07Power C07Collide C07Class C07Lang.
 Extraction Language OCaml.
-Extraction "../ocaml/gen/c07_model.ml" x_load x_name x_run x_irun x_order_ok x_f20_collide x_words_at x_add_words x_crash_ok x_crash_state x_seed_state x_merge_eq x_wasm fs_empty fs_write fs_read file_dict_name.
+Extraction "../ocaml/gen/c07_model.ml" x_load x_name x_run x_irun x_lstep x_eff_toks reported x_order_ok x_f20_collide x_view x_exact x_f15_keeps x_words_at x_add_words x_crash_ok x_crash_state x_seed_state x_merge_eq x_wasm fs_empty fs_write fs_read file_dict_name.
